@@ -517,7 +517,7 @@ func (c *compiler) compile(tok *token) []instruction {
 		c.FuncName = tmp
 
 	case "=":
-		if !independentTargets(tok.Tokens[0].Tokens) {
+		if !independentTargets(tok.Tokens[0].Tokens, tok.Tokens[1]) {
 			res = append(res, c.assignInOrder(tok)...)
 			break
 		}
@@ -968,11 +968,12 @@ func (c *compiler) compile(tok *token) []instruction {
 	return res
 }
 
-// independentTargets reports whether the targets of an assignment can be stored in any order: a single target, or
-// distinct plain names (an index or field target has operands of its own, and may name the same place as another)
-func independentTargets(targets []*token) bool {
+// independentTargets reports whether the targets of an assignment can be compiled after its values and stored in any
+// order: distinct plain names (an index or field target has operands of its own, and may name the same place as
+// another), or a single target, unless its operands and the value both contain calls: those run left to right
+func independentTargets(targets []*token, values *token) bool {
 	if len(targets) < 2 {
-		return true
+		return len(targets) == 0 || !hasCall(targets[0]) || !hasCall(values)
 	}
 	seen := map[string]bool{}
 	for _, arg := range targets {
